@@ -327,11 +327,28 @@ class G:
         return c
 
 
+class G2(G):
+    """same grammar, but every match draws its letters from the next of several disjoint groups: far fewer programs are ambiguous at a join, so
+    many more of them are accepted - and reach the later stages (optimiser, code generator) with nested structure intact"""
+    GROUPS = ["abc", "def", "ghi", "jkl", "mno", "pqr", "stu", "vwx"]
+    TEMPLATES = ['"{x}"', '"{x}{y}"', '"{X}{y}"i', '/{x}+/', '/{x}*{y}/', '/[{x}{y}]/', '/[{x}-{z}]+/', '/({x}{y}|{z}){{1,2}}/', '/{x}{y}?/', '("{x}" /{y}+/)', '/[{x}{y}]{z}/', '/{x}[^{x}{y}!;.]{y}/']
+
+    def __init__(self, rnd):
+        super().__init__(rnd)
+        self.k = rnd.randrange(len(self.GROUPS))
+
+    def match(self):
+        g = self.GROUPS[self.k % len(self.GROUPS)]
+        self.k += 1
+        x, y, z = g
+        return self.r.choice(self.TEMPLATES).format(x=x, y=y, z=z, X=x.upper())
+
+
 def generated_programs(n, seed=0, depth=2):
     rnd = random.Random(1000003 * seed + 17)
     out = []
     for i in range(n):
-        g = G(rnd)
+        g = G(rnd) if i % 2 == 0 else G2(rnd)
         body = g.seq(depth, 2, 4)
         src = DECLS + "parser { " + body + " }\n"
         out.append({"name": f"gen/s{seed}/{i}", "src": src, "args": ["-feof-support", "-fyield-support"], "path": None})
